@@ -884,6 +884,7 @@ func c09R6(p *core.Program, r *core.Report, sc *scanClosure) {
 			r.Anchor(rule, "pkg/gengo/snippet."+spec.fn)
 			continue
 		}
+		cf = p.Flatten(cf) // field-by-field construction is shown as a literal
 		cinfo := cf.Info()
 		okAll, nret := true, 0
 		why := ""
@@ -949,6 +950,7 @@ func c09R6(p *core.Program, r *core.Report, sc *scanClosure) {
 		r.Anchor(rule, "pkg/gengo/snippet.T")
 		return
 	}
+	tf = p.Flatten(tf)
 	info := tf.Info()
 	okStore := false
 	ast.Inspect(tf.Body, func(n ast.Node) bool {
